@@ -21,6 +21,7 @@ import (
 	"fmt"
 
 	"github.com/attestantio/dirk/rules"
+	"github.com/attestantio/dirk/util/verifhook"
 	"github.com/opentracing/opentracing-go"
 	"github.com/pkg/errors"
 )
@@ -131,6 +132,9 @@ func (s *Service) storeSignBeaconAttestationState(ctx context.Context, pubKey []
 
 	err := s.store.Store(ctx, key, state.Encode())
 	if err != nil {
+		return err
+	}
+	if err := verifhook.Point("store.exit", key); err != nil {
 		return err
 	}
 
